@@ -132,7 +132,7 @@ def nontrivial_static(segs, res, rule_kind):
     return len(seen)
 
 
-def static_check(pid, tier, kinds, cert, rule_kind, rule, sems="GR,CO,PR,ST,SST,STG,ID", lists=1, plan=None, extra=None, mc=("PR", "ID", "Range")):
+def static_check(pid, tier, kinds, cert, rule_kind, rule, sems="GR,CO,PR,ST,SST,STG,ID", lists=1, plan=None, extra=None, mc=("PR", "ID", "Range", "Compose")):
     res = Result(pid, tier)
     vlib.build_harness()
     # (A) design level: the search procedures are correct for every framework <= 3 arguments and every SAT-oracle schedule
@@ -174,7 +174,7 @@ def c01(tier):
 
 @check("C02")
 def c02(tier):
-    return static_check("C02", tier, "DC", "both", "ACC", mc=("Range",), rule=
+    return static_check("C02", tier, "DC", "both", "ACC", mc=("Range", "Compose"), rule=
                         "one event per distinct (framework presentation, semantics, argument, certificate flag, outcome); "
                         "non-trivial = framework with >= 3 arguments and >= 2 attacks")
 
@@ -433,8 +433,12 @@ def c18(tier):
     return res.finish()
 
 
-def static_mc(res, tier, which=("PR", "ID", "Range")):
-    """model checking of the static search machines: Static.tla (preferred, ideal) and StaticRange.tla (semi-stable, stage)"""
+def static_mc(res, tier, which=("PR", "ID", "Range", "Compose")):
+    """model checking of the static search machines: Static.tla (preferred, ideal), StaticRange.tla (semi-stable, stage) and of the
+    composition of answers and certificates over connected components (Compose.tla)"""
+    if "Compose" in which:
+        res.add_mc(vlib.mc("Compose.tla", cfg="MCCompose.cfg", wd=res.wd, name="MCCompose", timeout=1200))
+        res.extra["model_rejects_grounded_completion_everywhere"] = vlib.mc_expect_violation("Compose.tla", "MCCompose_defect.cfg", res.wd, "MCCompose_defect")
     for cfg in sorted(os.listdir(vlib.SPEC)):
         if not (cfg.startswith("MCStatic") and cfg.endswith(".cfg")):
             continue
